@@ -315,6 +315,9 @@ func (v *Verifier) LoadSpecFile(path string, pkgPath string, lib bool) error {
 	for _, a := range sf.Aliases {
 		gt, err := v.lookupGoType(a[1])
 		if err != nil {
+			if lib {
+				continue // package not loaded for this property
+			}
 			return fmt.Errorf("%s: alias %s: %v", path, a[0], err)
 		}
 		v.aliases[a[0]] = gt
@@ -353,13 +356,23 @@ func (v *Verifier) LoadSpecFile(path string, pkgPath string, lib bool) error {
 		for _, p := range d.Params {
 			so, gt, err := v.resolveTypeOrSort(p.Type)
 			if err != nil {
+				if lib {
+					def = nil
+					break
+				}
 				return fmt.Errorf("%s: specfunc %s: %v", path, d.Name, err)
 			}
 			def.PSorts = append(def.PSorts, so)
 			def.PGoT = append(def.PGoT, gt)
 		}
+		if def == nil {
+			continue
+		}
 		so, gt, err := v.resolveTypeOrSort(d.Ret)
 		if err != nil {
+			if lib {
+				continue
+			}
 			return fmt.Errorf("%s: specfunc %s: %v", path, d.Name, err)
 		}
 		def.Ret, def.RetGoT = so, gt
@@ -387,13 +400,23 @@ func (v *Verifier) LoadSpecFile(path string, pkgPath string, lib bool) error {
 		for _, p := range g.Params {
 			so, gt, err := v.resolveTypeOrSort(p.Type)
 			if err != nil {
+				if lib {
+					gd = nil
+					break
+				}
 				return fmt.Errorf("%s: ghost %s: %v", path, g.Name, err)
 			}
 			gd.PSorts = append(gd.PSorts, so)
 			gd.PGoT = append(gd.PGoT, gt)
 		}
+		if gd == nil {
+			continue
+		}
 		so, gt, err := v.resolveTypeOrSort(g.Ret)
 		if err != nil {
+			if lib {
+				continue
+			}
 			return fmt.Errorf("%s: ghost %s: %v", path, g.Name, err)
 		}
 		gd.Ret, gd.RetGoT = so, gt
